@@ -31,7 +31,10 @@ What is a theorem here (all inputs, no size bound), about `Model.C06` (tied to s
                                     with the log*: the returned records are exactly `Spec.C06.refRecords` (order, every field);
 * `next_never_passes_unreturned_partial`  under the same hypotheses every record the reference decoder yields from the log
                                     (response and beyond) is among the returned ones or lies at/after the next offset;
-* `next_within_response`            and the next offset stays at or below the end of the last batch wholly in the response.
+* `next_within_response`            and the next offset stays at or below the end of the last batch wholly in the response;
+* `returned_below_next`             for every input the next offset is past every returned record;
+* `spec_holds_partial`              together: the executable predicate `Spec.C06.holds` that the driver evaluates on the
+                                    implementation's output holds of the model's result (same hypotheses as the `…_partial` ones).
 
 The two `…_partial` theorems carry explicit hypotheses (see the section at the end): the frames encode a log whose offsets
 increase (`WfLog`), and the aborted list is one a broker can send for that log and fetch offset (`AbortedConsistent`).
@@ -240,6 +243,62 @@ theorem next_within_response (o : Opts) (A : List (Int × Int)) (items tail : Li
   subst e2
   exact hoff
 
+/-- The next offset is past every returned record, for every input (arbitrary frames, options and aborted list). -/
+theorem returned_below_next (o : Opts) (kerr : Bool) (A : List (Int × Int)) (items : List Item)
+    (recs : List Rec) (next : Int) (err : Option Err) (h : process o kerr A items = .done recs next err) :
+    ∀ r ∈ recs, r.offset < next := Proof.C06.process_below h
+
+open Proof.C06 in
+/-- The predicate the driver evaluates on the implementation's output for every generated log, `Spec.C06.holds`, is a theorem
+about the model: records equal to the reference, next offset not backwards and past every returned record, no unreturned
+record of the log below it, and not beyond the last batch wholly in the response. -/
+theorem spec_holds_partial (o : Opts) (A : List (Int × Int)) (items tail : List Item) (whole rest : List Spec.C06.LBatch)
+    (hrep : RepList items whole) (hwf : WfLog (whole ++ rest)) (hcons : AbortedConsistent o A (whole ++ rest))
+    (hcomplete : ∀ b ∈ whole.dropLast, b.present = b.records.length) (htail : StopTail tail)
+    (recs : List Rec) (next : Int) (err : Option Err) (h : process o false A (items ++ tail) = .done recs next err) :
+    Spec.C06.holds (reqOf o A) whole rest (recs.map obs) next = true := by
+  have hwf' := wfLog_left hwf
+  have hcons' := abortedConsistent_left hwf hcons
+  have hA := records_eq_reference_partial o A items tail whole hrep hwf' hcons' hcomplete htail recs next err h
+  have hB := next_never_passes_unreturned_partial o A items tail whole rest hrep hwf hcons hcomplete htail recs next err h
+  have hC := next_within_response o A items tail whole hrep hwf' hcons' hcomplete htail recs next err h
+  have hD := process_below h
+  unfold Spec.C06.holds
+  simp only [Bool.and_eq_true]
+  refine ⟨⟨⟨⟨?_, ?_⟩, ?_⟩, ?_⟩, ?_⟩
+  · rw [hA]; simp
+  · simp only [decide_eq_true_eq]; exact hC.1
+  · rw [List.all_eq_true]
+    intro r hr
+    obtain ⟨x, hx, rfl⟩ := List.mem_map.mp hr
+    simp only [decide_eq_true_eq]
+    exact hD x hx
+  · rw [List.all_eq_true]
+    intro r hr
+    rcases hB r hr with h1 | h1
+    · rw [List.contains_iff_mem.mpr h1]; rfl
+    · simp [h1]
+  · cases hl : whole.getLast? with
+    | none =>
+      have hnil : whole = [] := List.getLast?_eq_none_iff.mp hl
+      have h2 := hC.2 o.offset (by intro b hb; rw [hnil] at hb; simp at hb)
+      have h1 := hC.1
+      simp only [beq_iff_eq]
+      show next = o.offset
+      omega
+    | some b =>
+      obtain ⟨ys, hys⟩ := List.getLast?_eq_some_iff.mp hl
+      simp only [decide_eq_true_eq]
+      show next ≤ max o.offset (b.last + 1)
+      apply hC.2
+      intro b' hb'
+      rw [hys] at hb' hwf'
+      rcases List.mem_append.mp hb' with h1 | h1
+      · have := (List.pairwise_append.mp hwf'.ord).2.2 b' h1 b (by simp)
+        have := (hwf'.batch b (by simp)).firstLast
+        omega
+      · simp at h1; subst h1; omega
+
 /-- The byte-level fact behind the hypothesis `RepBatch.raw`: every v2 batch the framing walk decodes from bytes holds at
 least two bytes per decoded record (so a batch whose claimed count exceeds its decodable records is never mistaken for a
 complete one by the clamp `numRecords = len(rawRecords)`). -/
@@ -281,6 +340,12 @@ example : ∀ recs next err, process exOpts false exAborted (exItems ++ [.stop n
     ∀ r ∈ Spec.C06.refRecords (reqOf exOpts exAborted) (exLog ++ exRest) true, r ∈ recs.map obs ∨ next ≤ r.offset :=
   next_never_passes_unreturned_partial exOpts exAborted exItems [.stop none] exLog exRest ex_rep ex_wf ex_cons ex_complete
     (Or.inr ⟨none, [], rfl⟩)
+
+open Proof.C06 in
+/-- and the whole predicate of the Spec on that response (the log continues with `exRest` beyond it) -/
+example : ∀ recs next err, process exOpts false exAborted (exItems ++ [.stop none]) = .done recs next err →
+    Spec.C06.holds (reqOf exOpts exAborted) exLog exRest (recs.map obs) next = true :=
+  spec_holds_partial exOpts exAborted exItems [.stop none] exLog exRest ex_rep ex_wf ex_cons ex_complete (Or.inr ⟨none, [], rfl⟩)
 
 /-! ## A departure of the code from the Kafka log format (excluded above by `RepWrapper.plain`, reported)
 
